@@ -315,11 +315,10 @@ def run_operator_case(case, ctx):
             return
 
 
-def gen_out_case(g, cg, kind, flavour, op=None):
+def gen_out_case(g, cg, kind, flavour, op=None, oshape=None):
     """Explicit output buffers: a plain array (constant operands, comparisons) or a polynomial."""
     rng = g.rng
     case = {"form": "out"}
-    oshape = g.shape(3)
     while not oshape:
         oshape = g.shape(3)
     if flavour == "compare":
@@ -361,8 +360,8 @@ def run_operators(spec, ctx):
     for flavour, ops in (("compare", OUT_COMPARE), ("const", OUT_CONST_BINARY + OUT_CONST_UNARY),
                          ("poly", OUT_POLY_BINARY + OUT_POLY_UNARY)):
         for op in ops:
-            for kind in ("int", "float"):
-                case = gen_out_case(g, cg, kind, flavour, op)
+            for kind, oshape in (("int", (1, 3)), ("float", (2, 3)), ("int", (1,)), ("float", (2, 1, 2))):
+                case = gen_out_case(g, cg, kind, flavour, op, oshape)
                 ctx.run_case(case, lambda c: run_operator_case(c, ctx))
     for i in range(spec["n"]):
         form = rng.choice(["binary", "binary", "unary", "power", "division", "reduce", "reduce",
